@@ -396,7 +396,12 @@ class DataSet(list):
         http://stackoverflow.com/questions/8180014/how-to-subclass-python-list-without-type-problems.
 
         """
-        return DataSet(datapoints=list.__add__(self, rhs))
+        tmp = DataSet(datapoints=list.__add__(self, rhs))
+        # keep the descriptive attributes on which both operands agree
+        other = getattr(rhs, '__dict__', {})
+        tmp.__dict__ = {k: v for k, v in self.__dict__.items()
+                        if k in other and other[k] == v}
+        return tmp
 
     def __repr__(self):
         """Pretty-print dataset."""
